@@ -27,6 +27,10 @@ try:
             r = getattr(stores[cfg], fn)(*args)
             if isinstance(r, tuple):
                 r = list(r)
+            elif isinstance(r, (set, frozenset)):
+                r = ["set"] + sorted(r)
+            elif isinstance(r, os.PathLike):
+                r = os.path.relpath(os.fspath(r), stores[cfg].root)
             out[key] = ["return", r]
         except BaseException as e:  # noqa
             out[key] = ["raise", type(e).__name__]
